@@ -7,6 +7,7 @@ import (
 	cpctypes "github.com/EscanBE/evermint/v12/x/cpc/types"
 	"math/big"
 	"os"
+	"sort"
 	"strings"
 	"testing"
 	"time"
@@ -369,6 +370,18 @@ func runBlocks(t *testing.T, f *blockFixture, rng *hx.Rng, p *hx.Proto, nTx int)
 				}
 				if sum := new(big.Int).Add(new(big.Int).Add(dS, dC), moved); sum.Sign() != 0 {
 					p.Oracle("fee-leak", "tx %d (%s, %s): sender %s + collector %s + value %s != 0", i, g.kind, cl, dS, dC, moved)
+				}
+				if cl == "vmerr" { // C03: when the whole transaction ends with a VM error only the nonce increment and the gas fee remain
+					var others []string
+					for who, v := range o.delta {
+						if who != sender && who != c.feeCollector() && v.Sign() != 0 {
+							others = append(others, who+":"+v.String())
+						}
+					}
+					sort.Strings(others)
+					if len(others) > 0 || new(big.Int).Add(dS, dC).Sign() != 0 || o.minted.Cmp(o.burnt) != 0 {
+						p.Oracle("C03-vmerr-leaves-more-than-the-fee", "tx %d (%s): status 0, yet sender %s, collector %s, others %v, minted %s burnt %s", i, g.kind, dS, dC, others, o.minted, o.burnt)
+					}
 				}
 			}
 			// attach the refund-hook record of this tx's state transition (matched in order, checked by gas)
